@@ -409,7 +409,7 @@ func init() {
 			"external implementers of core.App / Tracer / Logger do not touch location state except through the public Location API",
 			"code holding a core.State value directly (package-level helpers taking a State, state hooks) is below the gate layer",
 		},
-		Rules: []ruleFn{ruleGateW, ruleGateR, ruleGateE, ruleGateUntrusted, ruleGateKeys, rulePropCanon, rulePropMarker, ruleGateFailClosed},
+		Rules: []ruleFn{ruleGateW, ruleGateR, ruleGateE, ruleGateUntrusted, ruleGateKeys, rulePropCanon, rulePropMarker, ruleGateFailClosed, ruleGateParents, ruleGateCount},
 	})
 }
 
@@ -427,4 +427,114 @@ func ruleGateFire(w *World, r *Report) {
 	}
 	runGateRuleSink(w, r, a, "GATE-FIRE", []gateSpec{en}, isSink,
 		"every path from an entry (an exported Location method, or a root such as a script callback or a goroutine) to the execution of a rule's action (a call of Location.ExecAction) passes the true edge of Location.Enabled: in a disabled location no rule fires, whether it was found by search, loaded for a trigger or embedded in the event itself", 2)
+}
+
+// flowsToReturn: the (first, non-error) result of the call instruction in is handed back by its function as it is:
+// followed through phis, conversions, re-slicings, local slots and copies made with append/copy — not through other calls.
+func flowsToReturn(in ssa.Instruction) bool {
+	v, ok := in.(ssa.Value)
+	if !ok {
+		return false
+	}
+	var direct func(x ssa.Value, seen map[ssa.Value]bool) bool
+	direct = func(x ssa.Value, seen map[ssa.Value]bool) bool {
+		if seen[x] {
+			return false
+		}
+		seen[x] = true
+		x = resolveSpill(x)
+		switch t := x.(type) {
+		case *ssa.Extract:
+			if t.Tuple == v {
+				return t.Index == 0
+			}
+		case *ssa.Phi:
+			for _, e := range t.Edges {
+				if direct(e, seen) {
+					return true
+				}
+			}
+		case *ssa.ChangeType:
+			return direct(t.X, seen)
+		case *ssa.Convert:
+			return direct(t.X, seen)
+		case *ssa.MakeInterface:
+			return direct(t.X, seen)
+		case *ssa.Slice:
+			return direct(t.X, seen)
+		case *ssa.Call:
+			if t == v {
+				_, isTuple := v.Type().(*types.Tuple)
+				return !isTuple
+			}
+			if b, ok := t.Common().Value.(*ssa.Builtin); ok && b.Name() == "append" {
+				for _, a := range t.Common().Args {
+					if direct(a, seen) {
+						return true
+					}
+				}
+			}
+		}
+		return false
+	}
+	found := false
+	allInstrs(in.Parent(), func(x ssa.Instruction) {
+		if ret, ok := x.(*ssa.Return); ok {
+			for _, res := range ret.Results {
+				if direct(res, map[ssa.Value]bool{}) {
+					found = true
+				}
+			}
+		}
+	})
+	return found
+}
+
+// GATE-PARENTS (C19): the parent list is revealed only with the read key.
+func ruleGateParents(w *World, r *Report) {
+	a := newLocAnchors(w)
+	_, rd, _ := locGates(a)
+	gp := w.Method("core", "Location", "getParents")
+	runGateRuleSink(w, r, a, "GATE-PARENTS", []gateSpec{rd}, func(in ssa.Instruction) (string, bool) {
+		c := callOf(in)
+		if c == nil || c.StaticCallee() != gp {
+			return "", false
+		}
+		if !flowsToReturn(in) {
+			return "", false // the ancestor walk uses the list to find its way; it does not hand it out
+		}
+		return "Location.getParents (result returned)", true
+	}, "the parent set is a stored property of the location (`!.parents`): every path from an entry to a call of Location.getParents whose result is handed back to the caller passes the success edge of Location.CheckRead (the ancestor walk, which only uses the list to find its way, is not a sink)", 1)
+}
+
+// GATE-COUNT (C19, C10): the size of a disabled location is not reported.
+func ruleGateCount(w *World, r *Report) {
+	a := newLocAnchors(w)
+	_, _, en := locGates(a)
+	st := w.Named("core", "State")
+	runGateRuleSink(w, r, a, "GATE-COUNT", []gateSpec{en}, func(in ssa.Instruction) (string, bool) {
+		c := callOf(in)
+		if c == nil || !isIfaceMethodCall(c, st, "Count") {
+			return "", false
+		}
+		v, ok := in.(ssa.Value)
+		if !ok {
+			return "", false
+		}
+		// handed back as a number (not merely compared with a limit)
+		found := false
+		allInstrs(in.Parent(), func(x ssa.Instruction) {
+			if ret, ok := x.(*ssa.Return); ok {
+				for _, res := range ret.Results {
+					if b, isB := res.Type().Underlying().(*types.Basic); isB && b.Info()&types.IsInteger != 0 && dependsOn(res, func(y ssa.Value) bool { return y == v }) {
+						found = true
+					}
+				}
+			}
+		})
+		if !found {
+			return "", false
+		}
+		return "State.Count (result returned)", true
+	}, "in a disabled location every operation reports that the location is disabled: every path from an entry to a State.Count whose result is handed back as a number passes the true edge of Location.Enabled (a comparison with the capacity inside an operation that has its own gates is not a sink)", 1)
 }
